@@ -323,6 +323,10 @@ int read_pax_header(sqfs_istream_t *fp, sqfs_u64 entsize,
 				goto fail;
 			}
 
+			/* the map record replaced the list built so far */
+			if (field->type == PAX_TYPE_CONST_STRING)
+				sparse_last = NULL;
+
 			*set_by_pax |= field->flag;
 		} else if (!strcmp(key, "GNU.sparse.offset")) {
 			if (parse_uint(value, -1, &diff, 0, 0, &offset))
